@@ -861,15 +861,21 @@ impl<V: Clone> WBTreeMap<V> {
         ensures
             match r {
                 Some(v) => old(self)@.contains_key(*key) && *v == old(self)@[*key]
-                    && final(self)@ == old(self)@.insert(*key, *final(v)) && final(self).wf(),
-                None => !old(self)@.contains_key(*key) && final(self)@ == old(self)@ && final(self).wf(),
+                    && final(self)@ =~= old(self)@.insert(*key, *final(v)) && final(self).wf(),
+                None => !old(self)@.contains_key(*key) && final(self)@ =~= old(self)@ && final(self).wf(),
             }
     {
         // Accumulate mappings as we traverse (cloned since we need mutable access)
         let mut mappings: Vec<PrefixTree2> = Vec::new();
+        let ghost root0 = self.root; let ghost len0 = self.len; let ghost k = *key; let ghost fself = *final(self);
         let mut current = &mut self.root;
         loop
-            invariant mappings@.len() == 0, tb(*current),
+            invariant mappings@.len() == 0, tb(*current), bal(*current), tb(root0), bal(root0), len0 == nsz(root0), k == *key,
+                view(*current).contains_key(k) == view(root0).contains_key(k),
+                view(root0).contains_key(k) ==> view(*current)[k] == view(root0)[k],
+                okfin(*current, *final(current), k) ==> (
+                    fself.len == len0 && okfin(root0, fself.root, k)
+                    && (view(*current).contains_key(k) ==> view(fself.root)[k] == view(*final(current))[k])),
             decreases *current,
         {
             match current {
@@ -907,6 +913,12 @@ impl<V: Clone> WBTreeMap<V> {
 }
 
 pub proof fn lemma_keys_lt_len<V: Clone>(t: Tree<V>) ensures true {}
+/// b is a well-formed tree with the same keys/size as a and the same values except possibly at key k
+pub open spec fn okfin<V: Clone>(a: Tree<V>, b: Tree<V>, k: u32) -> bool {
+    tb(b) && bal(b) && nsz(b) == nsz(a) && view(b).dom() =~= view(a).dom()
+    && forall|x: u32| x != k && view(a).contains_key(x) ==> #[trigger] view(b)[x] == view(a)[x]
+}
+
 
 } // verus!
 fn main() {}
